@@ -189,6 +189,9 @@ def many_outstanding_script(rnd, sid, n):
     b.op("state")
     sc = b.script()
     sc["family"] = "many-outstanding"
+    # each step waits for quiescence (~15 ms): the whole-script watchdog grows with the script (the default 30 s is what the
+    # 1000-caller script needs on an idle machine)
+    sc["watchdog"] = max(30000, 90 * len(sc["steps"]))
     return sc
 
 
